@@ -43,6 +43,17 @@ def run(ctx):
     role_preserving(ctx, fx, H, "C06.H2")
 
 
+_IR = {}
+
+
+def _issuer_reach(fx, H):
+    import callgraph as _cg
+    k = id(fx)
+    if k not in _IR:
+        _IR[k] = _cg.reachable_from(H.g, [n_ for n_ in fx.fns if n_.startswith("issuer::")])
+    return _IR[k]
+
+
 def h1(ctx, fx, H):
     # who may write: the constructor (and helpers that only it calls, whose code is judged inside the constructor's view)
     priv = common.private_helpers_of(fx, H.new)
@@ -83,10 +94,19 @@ def h1(ctx, fx, H):
                 ctx.ok("C06.H1", f, "jwt-first-part", "unverified_sd_jwt is the first `~`-separated part of the input, unmodified", line=w["line"])
             else:
                 ctx.finding("C06.H1", f, "jwt-first-part", "the compact parser does not keep the first `~`-separated part of the input verbatim: %s" % vstr(v, 5), line=w["line"])
+    _hv_reach = None
     for fld in ("protected", "payload", "signature"):
         for w in common.struct_field_writes(fx, "SDJWTJson", fld) or []:
             f = w["fn"]
             if f.is_macro_generated() or f.name.startswith("issuer::"):
+                continue
+            # a constructor helper of the envelope type that only the issuer's assembly reaches (`SDJWTJson::from_compact_jwt`): the
+            # holder / verifier side (every function under holder:: / verifier:: and the shared parsers they call) never gets to it
+            if _hv_reach is None:
+                import callgraph as _cg
+                _hv_reach = _cg.reachable_from(H.g, [n_ for n_ in fx.fns if n_.startswith(("holder::", "verifier::"))])
+            if f.name not in _hv_reach and any(f.name in _issuer_reach(fx, H) for _ in (0,)):
+                ctx.ok("C06.H1", f, "json-part-issuer-helper:%s" % fld, "SDJWTJson.%s is written by a helper that only the issuer's assembly reaches" % fld, line=w["line"])
                 continue
             # struct-update syntax / a rebuilt envelope that takes this member, unchanged, from the envelope parsed at construction
             # (`SDJWTJson { disclosures, kb_jwt, ..original.clone() }`): a copy, not a new value
